@@ -891,7 +891,7 @@ def witnesses(R):
     ids = {f["id"] for f in R.findings}
     sb, base = make_sandbox(R, "wit", True)
     if "fa-empty-name-escapes" in ids:
-        FileAccessor(base, gzip=True).store_file("", b"abc")
+        run_impl(lambda: FileAccessor(base, gzip=True).store_file("", b"abc"))
         if os.path.exists(base + ".gz"):
             R.known("fa-empty-name-escapes")
             os.unlink(base + ".gz")
